@@ -76,6 +76,10 @@ enum cc_stat cc_dynamic_pool_new_conf(
     CC_DynamicPoolConf const * const conf, 
     CC_DynamicPool **out)
 {
+    /* The page size in bytes (payload plus header) must not wrap around. */
+    if (size > ((size_t) -1) - sizeof(PageInfo)) {
+        return CC_ERR_INVALID_CAPACITY;
+    }
     CC_DynamicPool* pool  = conf->mem_calloc(1, sizeof(CC_DynamicPool));
 
     if (!pool) {
@@ -185,6 +189,9 @@ void* cc_dynamic_pool_malloc(size_t size, CC_DynamicPool* pool)
     if (size + padding > pool->top_page_size - used) {
         size_t next_max = (size_t) (pool->top_page_size * pool->exp_factor);
         if (pool->is_fixed || size + padding > next_max) {
+            return NULL;
+        }
+        if (next_max > ((size_t) -1) - sizeof(PageInfo)) {
             return NULL;
         }
         uint8_t*  new_page = pool->mem_alloc(next_max + sizeof(PageInfo));
